@@ -17,7 +17,7 @@ import (
 var byteAlphabet = []byte("{}[]:,\"\\01-+.eE \na\x00\xc3")
 
 var tokenAlphabet = []string{"{", "}", "[", "]", ":", ",", "true", "false", "null", "tru", "nul", "True", "0", "1", "-", "-0", "01", "1.5", "1.", ".5", "1e5", "1e", "1E+2", "+1",
-	`"`, `"a"`, `""`, `"\n"`, `"` + gen.U("0041") + `"`, `"\u12"`, `"` + gen.U("d800") + `"`, `"\x"`, `"\'"`, `"\a"`, `"\/"`, `'a'`, " ", "\t", "\r", "\n", "\f", "\x00", "\x7f", "\xc3\xa9", "\xff", "\xef\xbb\xbf"}
+	`"`, `"a"`, `""`, `"\n"`, `"` + gen.U("0041") + `"`, `"\u12"`, `"` + gen.U("d800") + `"`, `"\x"`, `"\'"`, `"\a"`, `"\/"`, `'a'`, "\"\xff\xff\xff\xff\xff\xfe0123456789ab\"", " ", "\t", "\r", "\n", "\f", "\x00", "\x7f", "\xc3\xa9", "\xff", "\xef\xbb\xbf"}
 
 func powSum(base, maxLen int) int {
 	n, p := 0, 1
